@@ -76,10 +76,10 @@ Proof.
   - split; [intros [v H]; discriminate|]. intros H. apply (assoc_none unit idhash) in E. contradiction.
 Qed.
 
-Lemma pass_spec s seen k : SInv s seen ->
-  exists s', dedupe_pass s k = Ok (negb (mem k seen), s') /\ SInv s' (k :: seen).
+Lemma seen_pass_spec s seen k : SInv s seen ->
+  exists s', seen_pass true invalid s k = Ok (negb (mem k seen), s') /\ SInv s' (k :: seen).
 Proof.
-  intros (e & m & Hv & Hr & Hseen). unfold dedupe_pass. rewrite guard_present, guard_is_invalid. cbn [andb].
+  intros (e & m & Hv & Hr & Hseen). unfold seen_pass. cbn [andb].
   destruct (N.eqb_spec k invalid) as [->|Hk].
   - eexists. split.
     + f_equal. f_equal. f_equal.
@@ -106,6 +106,42 @@ Proof.
         -- intros [<-|[H|[H1 H2]]]; auto.
         -- intros [H|[H1 [H2|H2]]]; auto.
 Qed.
+
+(* a repeated key leaves the represented set unchanged *)
+Lemma SInv_repeat s k seen : SInv s (k :: seen) -> In k seen -> SInv s seen.
+Proof.
+  intros (e & m & Hv & Hr & Hseen) Hin. exists e, m. split; auto. split; auto.
+  intros k'. rewrite <- Hseen. simpl. split; auto. intros [<-|H]; auto.
+Qed.
+
+Lemma SInv_ext s seen seen' : SInv s seen -> (forall k, In k seen <-> In k seen') -> SInv s seen'.
+Proof.
+  intros (e & m & Hv & Hr & Hseen) H. exists e, m. split; auto. split; auto. intros k. rewrite <- H. apply Hseen.
+Qed.
+
+Lemma seen_find_spec s seen k : SInv s seen -> seen_find true invalid s k = Ok (mem k seen).
+Proof.
+  intros (e & m & Hv & Hr & Hseen). unfold seen_find. cbn [andb].
+  destruct (N.eqb_spec k invalid) as [->|Hk].
+  - f_equal. destruct (d_seen_zero s) eqn:Z, (mem invalid seen) eqn:M; auto; exfalso.
+    + assert (In invalid seen) by (apply Hseen; auto). apply mem_In in H. congruence.
+    + apply mem_In in M. apply Hseen in M. destruct M as [[_ M]|[M _]]; congruence.
+  - destruct (auto_find_spec unit idhash (d_tab s) e k Hv Hk) as [Hpres Habs].
+    destruct (mem k seen) eqn:M.
+    + apply mem_In in M. apply Hseen in M. destruct M as [[M _]|[_ M]]; [contradiction|].
+      assert (Hin : In k (map ekey (abs unit (d_tab s)))).
+      { eapply Permutation_in; [symmetry; apply Permutation_map; exact Hr|exact M]. }
+      apply in_map_iff in Hin. destruct Hin as ([k' []] & <- & Hin).
+      destruct (Hpres tt Hin) as (i & Hf & _). cbn [ekey fst] in *. rewrite Hf. reflexivity.
+    + rewrite Habs; [reflexivity|]. intros Hin.
+      assert (In k seen).
+      { apply Hseen. right. split; auto. eapply Permutation_in; [apply Permutation_map; exact Hr|exact Hin]. }
+      apply mem_In in H. congruence.
+Qed.
+
+Lemma pass_spec s seen k : SInv s seen ->
+  exists s', dedupe_pass s k = Ok (negb (mem k seen), s') /\ SInv s' (k :: seen).
+Proof. unfold dedupe_pass. rewrite guard_present, guard_is_invalid. apply seen_pass_spec. Qed.
 
 Section Lines.
   Variable A : Type.
